@@ -78,7 +78,7 @@ class TabEnv(gym.Env):
         lg.steps.append(rec)
         lg.cur = rec["next"]
         lg.alive = not ended
-        return rec["next"], rec["reward"], rec["terminated"], rec["truncated"], {"episode": {"r": 0.0, "l": self.t}}
+        return rec["next"], rec["reward"], rec["terminated"], rec["truncated"], {}
 
 
 def same(a, b):
@@ -347,6 +347,72 @@ def run_a2c(routine, total, script, mode, n_envs=2, steps_per_update=5):
     return lg, err, dict(total=total, script=script, autoreset=mode, num_envs=n_envs, steps_per_update=steps_per_update, vector_steps=vector_steps)
 
 
+def run_ppo(routine, batch, script, with_logger, n_envs=2):
+    """real ppo.collect_trajectories / train_ppo on a SAME_STEP vector environment with RecordEpisodeStatistics:
+    the observation handed to actor.sample and every stored observation row must be the observation the
+    sub-environment returned last (after an episode end: its RESET observation, not the final observation)"""
+    from rl_blox.algorithm import ppo
+
+    logs = [Log() for _ in range(n_envs)]
+    envs = gym.vector.SyncVectorEnv([lambda lg=lg: TabEnv(lg, script, box=True) for lg in logs], autoreset_mode=gym.vector.AutoresetMode.SAME_STEP)
+    out = Log()
+
+    class Actor:
+        def sample(self, obs, key):
+            for e, lg in enumerate(logs):
+                if not same(obs[e], lg.cur):
+                    out.bad("act.pre.conditioned_on_current_observation[policy.sample]",
+                            f"actor conditioned on {np.asarray(obs[e]).tolist()} for sub-environment {e}, which is at {np.asarray(lg.cur).tolist()} (vector step #{len(lg.steps)})")
+            return jnp.zeros((n_envs, 1))
+
+    class Logger:
+        n_episodes = 0
+
+        def __getattr__(self, name):
+            return lambda *a, **k: None
+
+    critic = lambda o: jnp.zeros((o.shape[0], 1))  # noqa: E731
+    logger = Logger() if with_logger else None
+    err = None
+    try:
+        if routine == "train_ppo":
+            orig = ppo.update_ppo
+            ppo.update_ppo = lambda *a, **k: 0.0
+            rows = []
+            real_collect = ppo.collect_trajectories
+
+            def collect(*a, **k):
+                r = real_collect(*a, **k)
+                rows.append(r)
+                return r
+            ppo.collect_trajectories = collect
+            try:
+                ppo.train_ppo(envs, Actor(), critic, None, None, iterations=2, batch_size=batch, logger=logger, progress_bar=False)
+            finally:
+                ppo.update_ppo, ppo.collect_trajectories = orig, real_collect
+            results = rows
+        else:
+            obs0, _ = envs.reset(seed=0)
+            wrapped = gym.wrappers.vector.RecordEpisodeStatistics(envs)
+            results = [ppo.collect_trajectories(wrapped, Actor(), critic, jax.random.key(0), batch, logger, jnp.array(obs0), 0)]
+        t0 = 0
+        for r in results:
+            ob = np.asarray(r.observation)
+            for e, lg in enumerate(logs):
+                for t in range(batch):
+                    st = lg.steps[t0 + t]
+                    if not same(ob[e * batch + t], st["before"]):
+                        out.bad("rollout.row_is_what_the_env_produced[observation]",
+                                f"sub-environment {e}, vector step {t0 + t}: stored observation {ob[e * batch + t].tolist()}, the environment had returned {np.asarray(st['before']).tolist()}")
+            t0 += batch
+            for e, lg in enumerate(logs):
+                if r is results[-1] and not same(np.asarray(r.last_observation)[e], lg.cur):
+                    out.bad("post.returned_observation_is_the_current_one", f"returned last_observation[{e}] = {np.asarray(r.last_observation)[e].tolist()}, environment is at {np.asarray(lg.cur).tolist()}")
+    except Exception as e:  # noqa: BLE001
+        err = f"{type(e).__name__}: {e}"
+    return out, err, dict(batch_size=batch, script=script, logger=with_logger, num_envs=n_envs, vector_steps=len(logs[0].steps))
+
+
 def run_rollout(script):
     from rl_blox.util.experiment_helper import generate_rollout
 
@@ -403,6 +469,10 @@ def main():
         mode = "SAME_STEP" if "SAME_STEP" in scen else "NEXT_STEP"
         r = "train_a2c" if routine == "train_a2c" else "collect"
         runs = [lambda: run_a2c(r, 12 if r == "train_a2c" else 8, SCRIPTS[0], mode), lambda: run_a2c(r, 7, SCRIPTS[1], mode, n_envs=3)]
+    elif routine in ("ppo.collect_trajectories", "train_ppo"):
+        lgr = "logger" in scen
+        r = "train_ppo" if routine == "train_ppo" else "collect"
+        runs = [lambda: run_ppo(r, 6, SCRIPTS[0], lgr), lambda: run_ppo(r, 5, SCRIPTS[1], lgr, n_envs=3)]
     elif routine == "generate_rollout":
         runs = [lambda s=s: run_rollout(s) for s in ([(3, "term")], [(4, "trunc")], [(1, "term")])]
     else:
